@@ -5,6 +5,7 @@ SD=/verif/seeded/$N
 P=${@:-$(python3 -c "import json;print(json.load(open('$SD/meta.json'))['property'])")}
 cd /repo && git apply $SD/patch.diff 2>/dev/null || { echo "$N: patch does not apply"; exit 9; }
 cd /verif
+rm -rf /tmp/evidence.bak.$$; cp -r evidence /tmp/evidence.bak.$$
 for p in $P; do
   out=$(./check $p 2>/tmp/seedrun.err); rc=$?
   nv=$(echo "$out" | grep -c '^VIOLATION')
@@ -13,3 +14,4 @@ for p in $P; do
   [ $rc -eq 2 ] && grep UNDECIDED /tmp/seedrun.err | head -3 | cut -c1-200
 done
 cd /repo && git checkout -- . 
+rm -rf /verif/evidence; mv /tmp/evidence.bak.$$ /verif/evidence
